@@ -187,6 +187,8 @@ func checkC04(c *Ctx) {
 	c.Rule("R4.17", "the lazily derived core is built exactly once whatever the number of goroutines that use it first (sync.Once): a second first user never sees a core that is not there yet and loses its entry", 3)
 	c.As(map[string]string{"R7.6": "R4.17"}, func() { c7Lazy(c) })
 	c.Rule("R4.18", "Check discipline of every Core: a core that declines hands back the checked entry it was given - returning nil would discard what the other branches of a tee had registered", 8)
+	c.Rule("R4.19", "pooled buffers are released at most once: a buffer freed twice is handed to two concurrent log calls, whose lines then reach the sink torn or merged", 3)
+	c.As(map[string]string{"R8.4": "R4.19"}, func() { c8SingleRelease(c) })
 	c.As(map[string]string{"R5.1": "R4.18"}, func() { c5CheckDiscipline(c) })
 	// R4.8, R4.14
 	c.Rule("R4.14", "every access to the buffered syncer's state - its bufio writer included - holds its mutex (a flush that runs beside a Write makes bufio drop or tear the line being buffered)", 10)
